@@ -69,6 +69,15 @@ add(S, "expired_record_after_eviction", one, fetch("r1", "k1", "d1", 1) + fetch(
 add(S, "fresh_record_after_eviction", one, fetch("r1", "k1", "d1", 2) + fetch("r2", "k2", "d1", 2) + tick(1) + ask("r3", "k1", "d1", "ok"))
 add(S, "expired_hfp_record_after_kill", one, fetch("r1", "k1", "d1", 0, "uncacheable") + [{"a": "Kill"}] + tick(2) + ask("r2", "k1", "d1", "ok"))
 add(S, "hfp_record_after_kill", one, fetch("r1", "k1", "d1", 0, "uncacheable") + [{"a": "Kill"}] + ask("r2", "k1", "d1", "ok"))
+# the store is slow to answer the first lookup of a key and what it finally hands back is a record whose lifetime is over; another
+# request for the key arrives while the read is in progress: both are served (one fetches, the other is answered from that fetch)
+slowread = json.loads(json.dumps(one)); slowread["gate_store_get"] = True
+add(S, "expired_record_read_slowly_with_a_second_request", slowread,
+    [{"a": "Start", "p": "r1", "k": "k1", "d": "d1", "m": "GET"}] + R("r1", 4) + [{"a": "FetchEndIf", "p": "r1", "out": "cacheable", "ttl": 1}] + R("r1", 8) + [{"a": "Kill"}] + tick(3)
+    + [{"a": "Start", "p": "r2", "k": "k1", "d": "d1", "m": "GET"}, {"a": "Lookup", "p": "r2"}, {"a": "ReleaseIf", "p": "r2"},
+       {"a": "Start", "p": "r3", "k": "k1", "d": "d1", "m": "GET"}, {"a": "Lookup", "p": "r3"}, {"a": "ReleaseIf", "p": "r3"}, {"a": "ReleaseIf", "p": "r3"},
+       {"a": "GetStep", "p": "r2", "res": "ok"}] + R("r2", 3) + R("r3", 3)
+    + [{"a": "FetchEndIf", "p": "r2", "out": "cacheable", "ttl": 2}, {"a": "FetchEndIf", "p": "r3", "out": "cacheable", "ttl": 2}] + R("r2", 8) + R("r3", 8))
 add(S, "memory_expiry", one, fetch("r1", "k1", "d1", 1) + tick(2) + ask("r2", "k1", "d1"))
 json.dump(S, open(os.path.join(here, "store_directed.json"), "w"), indent=0)
 
@@ -111,6 +120,11 @@ for store in (False, True):
     add(BD, "gzip_origin_other_traffic_between" + ("_store" if store else ""), cfgb,
         bfetch("r1", "k1") + bfetch("r2", "k2", "POST", "uncacheable") + bfetch("r3", "k2") + bfetch("r2", "k1") + bfetch("r3", "k2")
         + bfetch("r1", "k1", "POST", "uncacheable") + bfetch("r2", "k1") + bfetch("r3", "k2"))
+# a small answer (stored as it came, no compressed variants) is restored from the store after a restart / an eviction and asked for
+# by clients that accept gzip and br: they get the bytes of the answer
+acfg = {"disps": [{"name": "d1", "limit": 1, "hfp": 1, "store": True}], "keys": {"k1": 1, "k2": 1}, "req": "accept"}
+add(BD, "small_answer_restored_for_clients_accepting_encodings", acfg,
+    bfetch("r1", "k1") + [{"a": "Kill"}] + bfetch("r2", "k1") + bfetch("r3", "k1") + bfetch("r2", "k2") + bfetch("r3", "k1") + bfetch("r2", "k1"))
 # GET and HEAD of one URL are separate entries: k2 is the HEAD request for k1's URL.  A HEAD after the GET's entry was stored, a HEAD
 # after its lifetime has passed without another GET, a GET after a HEAD was stored
 hcfg = {"disps": [{"name": "d1", "limit": 0, "hfp": 1, "store": False}], "keys": {"k1": 1, "k2": 1}, "head_twin": {"k2": "k1"}}
